@@ -44,6 +44,15 @@ Theorem C19_halted_stable : forall (cpu : Type) (pc : cpu -> Z) (step : cpu -> c
 Proof. exact halted_stable_reachable. Qed.
 Print Assumptions C19_halted_stable.
 
+(* The session thread survives every request sequence (after fix f081c69: continue / pause / next / stepIn / stepOut are
+   refused with an error response while the machine is launching): in no reachable state of either protocol has
+   handle_machine_event met a state change from or to Launching -- its panicking arm. *)
+Theorem C19_session_never_dies : forall (cpu : Type) (pc : cpu -> Z) (step : cpu -> cpu) (fin : cpu -> bool)
+    (step_over step_out : cpu -> cpu) (reset_lcp : bool) (p : protocol) (c0 : cpu) (tr : list action) (s : st cpu),
+  run cpu pc step fin step_over step_out reset_lcp p tr (init c0) = Some s -> sl s <> SDead.
+Proof. exact session_never_dies. Qed.
+Print Assumptions C19_session_never_dies.
+
 (* The adapter as pinned (F-C19a): the schedule
      configurationDone . M_read_state(Running) . M_check_bp . pause: S_pause_read_pc . S_pause_publish . M_execute
    ends with the session idle, Stopped(pc c0) published and the CPU one instruction further. *)
@@ -289,3 +298,12 @@ Example C19_example_disciplined_call :
   returns_at (op6502 w_cpu) 2 7 /\ disciplined_call w_cpu 2 7 /\ frame_call (op6502 w_cpu) 2 4 /\
   pc6502 w_cpu 7 = pc6502 w_cpu 2 + 3 /\ step_over (op6502 w_cpu) 100 2 = Some 7 /\ step_out (op6502 w_cpu) 100 4 = Some 7.
 Proof. exact disciplined_witness. Qed.
+
+(* run control before configurationDone is answered with an error and changes nothing *)
+Example C19_example_refused_while_launching :
+  match run_obs Z (fun c => c) Z.succ (fun _ => false) Z.succ Z.succ true StateHeld
+          [S_req RPause; S_req (RStep KOver); S_req RContinue; S_req RConfigDone; S_start] (init 10) with
+  | Some (s, o) => rs s = Running /\ chan s = [] /\ o = [OError RPause; OError (RStep KOver); OError RContinue; OResp RConfigDone]
+  | None => False
+  end.
+Proof. vm_compute. repeat split; reflexivity. Qed.
